@@ -345,7 +345,11 @@ func runC06(args []string) int {
 			mod = ecc.BN254.ScalarField()
 		}
 		sb.WriteString(fmt.Sprintf("Definition cases_%s : list scase := %s.\n", name, coqlistNL(coqCases[name])))
-		sb.WriteString(fmt.Sprintf("Definition mism_%s := Eval vm_compute in mismatches %s%%Z cases_%s.\nPrint mism_%s.\n", name, mod.String(), name, name))
+		if name == "tiny" {
+			sb.WriteString("Definition mism_tiny := Eval vm_compute in mismatches_f47 cases_tiny.\nPrint mism_tiny.\n")
+		} else {
+			sb.WriteString(fmt.Sprintf("Definition mism_%s := Eval vm_compute in mismatches_raw %s%%Z cases_%s.\nPrint mism_%s.\n", name, mod.String(), name, name))
+		}
 		rep.CoqCases += len(coqCases[name])
 		rep.Extra["case_index_"+name] = caseIdx[name]
 	}
